@@ -40,3 +40,13 @@ Theorem C09_identify_ser :
   forall o d, ser_image o = Ok (PDict d) -> identify_dict d = identify_obj o.
 Proof. exact identify_ser. Qed.
 Print Assumptions C09_identify_ser.
+
+(* ... and whatever loaded file produced the manifest: every image of a document goes through add (for source images of format
+   <= 1.1 once per binary architecture), so a loaded manifest of format >= 1.1 satisfies the same invariant - equivalently, a
+   document containing two images of one identity with different checksums is rejected on load *)
+From PM Require Import Proofs.LoadUnique.
+Theorem C09_loaded_manifest_is_unique :
+  forall doc st v vt, deser_header images_mtype doc = Ok (v, vt) -> vt_leb (1, 1) vt = true ->
+  load_images doc = Ok st -> Inv (im_cells st).
+Proof. exact load_images_unique. Qed.
+Print Assumptions C09_loaded_manifest_is_unique.
